@@ -429,7 +429,8 @@ impl<S: Stage> DynStage for S {
             known_hits: BTreeMap::new(),
         }));
         let stop = Arc::new(AtomicBool::new(false));
-        let failures: Arc<Mutex<Vec<(usize, S::Case, String, String)>>> =
+        #[allow(clippy::type_complexity)]
+        let failures: Arc<Mutex<Vec<(usize, S::Case, String, String, Option<S::Case>)>>> =
             Arc::new(Mutex::new(vec![]));
         let stage_name = Stage::name(self);
 
@@ -466,6 +467,8 @@ impl<S: Stage> DynStage for S {
                         let shrink_budget = std::time::Duration::from_secs(tier.pick(90, 600));
                         let last: std::cell::RefCell<Option<(String, String)>> =
                             std::cell::RefCell::new(None);
+                        // the first failing case, before any shrinking
+                        let first_case: std::cell::RefCell<Option<S::Case>> = std::cell::RefCell::new(None);
                         let res = runner.run(&strategy, |case| {
                             if stop.load(Ordering::Relaxed) && !failed.get() {
                                 return Ok(());
@@ -513,6 +516,7 @@ impl<S: Stage> DynStage for S {
                                     }
                                     if !failed.get() {
                                         failed_at.set(Some(Instant::now()));
+                                        *first_case.borrow_mut() = Some(case.clone());
                                     }
                                     failed.set(true);
                                     *last.borrow_mut() = Some((kind.clone(), detail.clone()));
@@ -538,7 +542,7 @@ impl<S: Stage> DynStage for S {
                                         .map(|(k, d)| (k, format!("(did not reproduce on re-run) {d}")))
                                         .unwrap_or_default(),
                                 };
-                                failures.lock().unwrap().push((shard, case, kind, detail));
+                                failures.lock().unwrap().push((shard, case, kind, detail, first_case.borrow_mut().take()));
                             }
                             Err(TestError::Abort(r)) => {
                                 println!("INCONCLUSIVE: proptest aborted stage {stage_name}: {r}");
@@ -568,7 +572,8 @@ impl<S: Stage> DynStage for S {
         // further executions in fresh state.
         let mut fl = failures.lock().unwrap();
         fl.sort_by_key(|f| f.0);
-        for (_shard, case, kind, detail) in fl.drain(..) {
+        for (_shard, case, kind, detail, first_case) in fl.drain(..) {
+            let mut case = case;
             let mut confirmed = true;
             let mut k = kind.clone();
             let mut d = detail.clone();
@@ -587,6 +592,32 @@ impl<S: Stage> DynStage for S {
                     _ => {
                         confirmed = false;
                         break;
+                    }
+                }
+            }
+            // The code under test is not always a pure function of the case (hash seeds, its own
+            // random ids): when the shrunk case does not fail every time, fall back to the case
+            // that failed first and accept it if it fails again in at least 2 of 6 executions.
+            if !confirmed {
+                if let Some(fc) = first_case {
+                    let mut fails = 0;
+                    let mut cw: Option<Worker> = None;
+                    for _ in 0..6 {
+                        WATCH_SLOTS[63].store(now_ms(base_instant()), Ordering::Relaxed);
+                        let o = run_case(self, prop, &fc, &mut cw);
+                        WATCH_SLOTS[63].store(0, Ordering::Relaxed);
+                        if let Verdict::Violation { kind, detail } = o.verdict {
+                            if known_match(findings, prop, stage_name, &kind).is_none() {
+                                fails += 1;
+                                k = kind;
+                                d = detail;
+                            }
+                        }
+                    }
+                    if fails >= 2 {
+                        confirmed = true;
+                        d = format!("(unshrunk case; failed in {fails} of 6 further executions) {d}");
+                        case = fc;
                     }
                 }
             }
@@ -728,6 +759,14 @@ pub fn run_property(spec: PropertySpec, tier: Tier, seed: u64) -> i32 {
                 rep.wall_s,
                 if rep.violation.is_some() { " VIOLATION" } else { "" }
             );
+            for u in &rep.unconfirmed {
+                println!(
+                    "NOTE: [{}:{}] a failure ({}) was observed once but did not reproduce in the confirmation runs; not reported (see evidence)",
+                    spec.id,
+                    rep.stage,
+                    u.get("kind").and_then(|k| k.as_str()).unwrap_or("?")
+                );
+            }
             for (k, n) in &rep.known_hits {
                 *known_hits.entry(k.clone()).or_insert(0) += n;
             }
